@@ -278,6 +278,11 @@ thread_local! {
     };
 }
 
+/// a key hashing to slot `s` (table built once per thread)
+pub fn key_for_slot(s: usize) -> Vec<u8> {
+    SLOT_KEYS.with(|keys| keys[s].clone())
+}
+
 fn version(tok: &str) -> ClusterNodesVersion {
     if tok == "1" {
         ClusterNodesVersion::V1
